@@ -260,10 +260,11 @@ def append (arr : List Byte) (m : Msg) : List Byte :=
 /-- `mpt_message_get(queue, off, take, msg, vec)`: the message over the (possibly wrapped) queue data.
     `.err BadArgument` = −1 (offset outside), `.err BadValue` = −2 (not enough data) -/
 def get (r : Ring) (off take : Nat) : Res Msg :=
-  let (b, low0) := r.data
+  -- `mpt_queue_data`: first part starts at `off`, `low0 = min (max − off) len` bytes
+  let low0 := min (r.store.length - r.off) r.len
   let high0 := r.len - low0
   let sel : Option (Nat × Nat × Nat) :=
-    if off < low0 then some (b + off, low0 - off, high0)
+    if off < low0 then some (r.off + off, low0 - off, high0)
     else if off - low0 > high0 then none
     else some (off - low0, high0 - (off - low0), 0)
   match sel with
